@@ -19,6 +19,24 @@ def ascKeys (env : Env) : List (Atom × Val) → Bool
   | [] => true
   | (k, _) :: rest => rest.all (fun q => isTrue (atomLt env k q.1)) && ascKeys env rest
 
+def keysOf (kvs : List (Atom × Val)) : List Atom := kvs.map (·.1)
+
+/-- No two atoms of the list are `==`. -/
+def nodupAtoms : List Atom → Bool
+  | [] => true
+  | a :: rest => rest.all (fun b => !atomEq a b) && nodupAtoms rest
+
+/-- The key discipline of an association list. `none` (dicts): keys strictly ascending;
+`some L` (attributes of an object whose class declares the fields `L`, in any order): the keys are
+exactly `L`, in that order, and `L` has no duplicates. -/
+def keysOk (env : Env) : Option (List Atom) → List (Atom × Val) → Bool
+  | none, kvs => ascKeys env kvs
+  | some L, kvs => decide (keysOf kvs = L) && nodupAtoms L
+
+def shTail : Option (List Atom) → Option (List Atom)
+  | none => none
+  | some L => some L.tail
+
 def tupleElemOk (num : Bool) : Val → Bool
   | .atom (.num _) => num
   | .atom (.str _) => !num
@@ -26,14 +44,15 @@ def tupleElemOk (num : Bool) : Val → Bool
 
 mutual
   /-- The class of values the order theorems quantify over (decidable): any nesting of atoms,
-  lists, dicts and objects whose keys / field names ascend, tuples of numbers only (`num = true`)
+  lists, dicts whose keys ascend, objects whose attributes are the declared fields of their class
+  (`env.fields c`, any declaration order), tuples of numbers only (`num = true`)
   or of strings only (`num = false`) — "tuples of mutually comparable primitives". -/
   def comparable (env : Env) (num : Bool) : Val → Bool
     | .atom _ => true
     | .list _ xs => comparableList env num xs
     | .tuple xs => xs.all (tupleElemOk num)
-    | .dict _ kvs => ascKeys env kvs && comparableItems env num kvs
-    | .obj _ kvs => ascKeys env kvs && comparableItems env num kvs
+    | .dict _ kvs => keysOk env none kvs && comparableItems env num kvs
+    | .obj c kvs => keysOk env (some (env.fields c)) kvs && comparableItems env num kvs
   def comparableList (env : Env) (num : Bool) : List Val → Bool
     | [] => true
     | x :: xs => comparable env num x && comparableList env num xs
@@ -99,20 +118,66 @@ theorem eqItems_cons_fresh {xs : List (Atom × Val)} (k : Atom) (w : Val) (ys : 
     simp only [eqItems, lookup, h1, h2]
     rfl
 
-/-- One step of `eq` on two ascending dicts whose first keys are `==`. -/
-theorem eqD_cons_eq {env : Env} (ok : EnvOk env) {k k' : Atom} {v w : Val} {xs ys : List (Atom × Val)}
-    (hx : ascKeys env ((k, v) :: xs) = true) (hy : ascKeys env ((k', w) :: ys) = true)
+theorem keysOk_tail {env : Env} {sh : Option (List Atom)} {p : Atom × Val} {xs : List (Atom × Val)}
+    (h : keysOk env sh (p :: xs) = true) : keysOk env (shTail sh) xs = true := by
+  cases sh with
+  | none =>
+    obtain ⟨k, v⟩ := p
+    have h : ascKeys env ((k, v) :: xs) = true := h
+    exact (ascKeys_cons h).2
+  | some L =>
+    simp only [keysOk, keysOf, List.map_cons, Bool.and_eq_true, decide_eq_true_eq] at h
+    obtain ⟨h1, h2⟩ := h
+    subst h1
+    simp only [nodupAtoms, Bool.and_eq_true] at h2
+    simp [keysOk, shTail, keysOf, h2.2]
+
+/-- Two lists under one key discipline whose first keys are `==`: neither first key occurs in the
+other list's tail. -/
+theorem keysOk_fresh {env : Env} (ok : EnvOk env) {sh : Option (List Atom)} {k k' : Atom} {v w : Val}
+    {xs ys : List (Atom × Val)}
+    (hx : keysOk env sh ((k, v) :: xs) = true) (hy : keysOk env sh ((k', w) :: ys) = true)
+    (hk : atomEq k k' = true) :
+    (∀ p ∈ xs, atomEq p.1 k' = false) ∧ (∀ p ∈ ys, atomEq p.1 k = false) := by
+  have hk' : atomEq k' k = true := by rw [atomEq_symm]; exact hk
+  cases sh with
+  | none =>
+    have hx : ascKeys env ((k, v) :: xs) = true := hx
+    have hy : ascKeys env ((k', w) :: ys) = true := hy
+    obtain ⟨hx1, _⟩ := ascKeys_cons hx
+    obtain ⟨hy1, _⟩ := ascKeys_cons hy
+    constructor
+    · intro p hp
+      have : atomLt env k' p.1 = .ok true := by rw [← atomLt_congr_left p.1 hk]; exact hx1 p hp
+      exact (atom_ne_of_lt ok this).2
+    · intro p hp
+      have : atomLt env k p.1 = .ok true := by rw [← atomLt_congr_left p.1 hk']; exact hy1 p hp
+      exact (atom_ne_of_lt ok this).2
+  | some L =>
+    simp only [keysOk, keysOf, List.map_cons, Bool.and_eq_true, decide_eq_true_eq] at hx hy
+    obtain ⟨hx1, hx2⟩ := hx
+    obtain ⟨hy1, _⟩ := hy
+    subst hx1
+    simp only [List.cons.injEq] at hy1
+    obtain ⟨hkk, hys⟩ := hy1
+    subst hkk
+    simp only [nodupAtoms, Bool.and_eq_true, List.all_eq_true, Bool.not_eq_true'] at hx2
+    constructor
+    · intro p hp
+      rw [atomEq_symm]
+      exact hx2.1 p.1 (List.mem_map.mpr ⟨p, hp, rfl⟩)
+    · intro p hp
+      rw [atomEq_symm]
+      exact hx2.1 p.1 (by rw [← hys]; exact List.mem_map.mpr ⟨p, hp, rfl⟩)
+
+/-- One step of `eq` on two attribute lists under one key discipline whose first keys are `==`. -/
+theorem eqD_cons_eq {env : Env} (ok : EnvOk env) {sh : Option (List Atom)} {k k' : Atom} {v w : Val}
+    {xs ys : List (Atom × Val)}
+    (hx : keysOk env sh ((k, v) :: xs) = true) (hy : keysOk env sh ((k', w) :: ys) = true)
     (hk : atomEq k k' = true) :
     eqD ((k, v) :: xs) ((k', w) :: ys) = (eq v w && eqD xs ys) := by
-  obtain ⟨hx1, _⟩ := ascKeys_cons hx
-  obtain ⟨hy1, _⟩ := ascKeys_cons hy
   have hk' : atomEq k' k = true := by rw [atomEq_symm]; exact hk
-  have fx : ∀ p ∈ xs, atomEq p.1 k' = false := fun p hp => by
-    have : atomLt env k' p.1 = .ok true := by rw [← atomLt_congr_left p.1 hk]; exact hx1 p hp
-    exact (atom_ne_of_lt ok this).2
-  have fy : ∀ p ∈ ys, atomEq p.1 k = false := fun p hp => by
-    have : atomLt env k p.1 = .ok true := by rw [← atomLt_congr_left p.1 hk']; exact hy1 p hp
-    exact (atom_ne_of_lt ok this).2
+  obtain ⟨fx, fy⟩ := keysOk_fresh ok hx hy hk
   have e1 := keysSubset_cons_fresh k' w ys fx
   have e2 := keysSubset_cons_fresh k v xs fy
   have e3 := eqItems_cons_fresh k' w ys fx
@@ -125,11 +190,23 @@ theorem eqD_cons_eq {env : Env} (ok : EnvOk env) {k k' : Atom} {v w : Val} {xs y
   cases (xs.length == ys.length) <;> cases (xs.all fun p => hasKey p.1 ys) <;>
     cases (ys.all fun p => hasKey p.1 xs) <;> cases (eq v w) <;> cases (eqItems xs ys) <;> rfl
 
-/-- Two ascending dicts whose first keys differ are not `eq`. -/
-theorem eqD_cons_ne {env : Env} (ok : EnvOk env) {k k' : Atom} {v w : Val} {xs ys : List (Atom × Val)}
-    (hx : ascKeys env ((k, v) :: xs) = true) (hy : ascKeys env ((k', w) :: ys) = true)
+/-- Two lists under one key discipline whose first keys differ are not `eq`. -/
+theorem eqD_cons_ne {env : Env} (ok : EnvOk env) {sh : Option (List Atom)} {k k' : Atom} {v w : Val}
+    {xs ys : List (Atom × Val)}
+    (hx : keysOk env sh ((k, v) :: xs) = true) (hy : keysOk env sh ((k', w) :: ys) = true)
     (hk : atomEq k k' = false) :
     eqD ((k, v) :: xs) ((k', w) :: ys) = false := by
+  cases sh with
+  | some L =>
+    simp only [keysOk, keysOf, List.map_cons, Bool.and_eq_true, decide_eq_true_eq] at hx hy
+    have : k = k' := by
+      have := hx.1.trans hy.1.symm
+      simp only [List.cons.injEq] at this
+      exact this.1
+    rw [this, atomEq_refl] at hk; cases hk
+  | none =>
+  have hx : ascKeys env ((k, v) :: xs) = true := hx
+  have hy : ascKeys env ((k', w) :: ys) = true := hy
   obtain ⟨hx1, _⟩ := ascKeys_cons hx
   obtain ⟨hy1, _⟩ := ascKeys_cons hy
   have hk' : atomEq k' k = false := by rw [atomEq_symm]; exact hk
